@@ -93,9 +93,9 @@ Inductive op :=
 | Detrend (kw:kwargs)
 | Filter (w:wn) (ord:nat) (bt:string)
 | Rollback
+| AddAlg (nm:nat)    (* add_algorithms(alg): nm identifies the algorithm INSTANCE (a fresh one, or one added before) *)
 | ScipyRaises        (* a decimate/detrend/filter call that SciPy itself refuses on the present data (record too short for the
-                        padding, unknown ftype/type/btype value, Wn above Nyquist): SciPy is not modelled, the harness marks these calls *)
-| AddAlg (nm:nat).   (* add_algorithms(alg): nm identifies the algorithm INSTANCE (a fresh one, or one added before) *)
+                        padding, unknown ftype/type/btype value, Wn above Nyquist): SciPy is not modelled, the harness marks these calls *).
 
 (* __init__ / _initialize_data *)
 Definition init_state (sg:bool) (fs0:Qc) (refs:list (list nat)) (ds:list term) : presult state :=
